@@ -19,6 +19,7 @@ from types import SimpleNamespace
 
 from harness.common import leanproc
 from harness.common import serial_c14 as S2
+from harness.common import serial3_c14 as S3
 from harness.common.shrink import ddmin
 from harness.common.util import REPO, InfraError
 
@@ -26,8 +27,8 @@ ID = "C14"
 LEAN_MODULES = ["MpfVerif.Props.C14"]
 PROPS_FILE = "MpfVerif/Props/C14.lean"
 MANIFEST = {
-  "text": "Proof on byte-level Lean models of the three incremental serial decoders and the FAST command writer: (1) for every byte-at-a-time decoder feed(a++b) = feed(feed a) b, hence frames and carried buffer of the FAST ('\\r') and PKONE ('E') decoders are independent of how the bytes were split into reads, and after any noise one delimiter restores exact in-order delivery; (2) a transcription of OPP's _parse_msg (part_msg, _lost_synch, the strlen>2 threshold, 7/11-byte frames, EOM) always terminates and, on every chunking, emits exactly the frames of a byte-at-a-time automaton on the concatenated bytes, its carried state being equal after normalisation (the raw carried pair does depend on the chunking); (3) the CRC-8 table regenerated from opp_rs232_intf.py on every run is a permutation (kernel-checked per entry) and linear (kernel-checked) and therefore every single-byte error and every burst error confined to 8 consecutive bits, in data or CRC byte of a frame, is detected; a frame with a wrong CRC changes no card state and produces no switch event; after any frame the reported switch states mirror old_state and a valid frame sets it to its payload; a FAST switch report sets exactly that switch, and after any list of SA: snapshots and -L:/ /L: events the state of every configured switch is what the last report mentioning it said (event: the reported logical state; snapshot: invert xor bit) while hw_switch_data is the last snapshot; (4) after any garbage plus 11 idle bytes the OPP automaton decodes every following well-formed frame; every PKONE frame is handled without raising (non-UTF-8 frames are skipped) and well-formed frames after noise are delivered; (5) the writer keeps queue order at every point of every run. Flow control is a known finding (the writer never pauses; a lost response is never retried): proved only for disciplined senders resp. for responses that arrive, with witnesses. The models are tied to the real communicators by a correspondence run (incl. the real FAST platform booted on the repo's mock serial with the real switch controller for mixed snapshot/event sequences; generated streams, chunkings down to single bytes, corruptions, malformed frames, writer schedules) on every check. Session 3 (Model/Framing2.lean) adds the protocol code behind the frame decoders: (6) PKONE _parse_msg with its in-flight counter and send_ready, process_received_message, receive_switch (PSW) and receive_all_switches (PSA) as one byte-at-a-time automaton over the whole state: state and observations are independent of the chunking; a frame changes the reported switch table only if it is exactly PSW+board digit+two switch digits+0/1 (truncated, over-long, non-numeric payloads report nothing) and hw_switch_data only if it is a well-formed PSA; after any frame sequence the state last told for a switch is that of the last well-formed PSW for it; the counter goes down by the number of delimiters, never below zero, send_ready is never cleared by the reader; (7) OPP initialisation: readuntil(EOM, 7n) returns the complete reply of n cards whatever its bytes are (the old minimum 6 cut a reply whose CRC byte is 0xff: witness), the loop of get_gen2_cfg_resp / vers_resp over the merged responses of any number of chained cards accepts exactly the well-formed responses in chain order, and on a bad CRC exactly the cards before it (nothing from the damaged response or after it); (8) FAST configuration-phase dispatch (ID: CH: SL: DL: SA: at boot, !B: XX:) as a delimiter automaton: chunking-independent, and after any garbage and one CR every following response is dispatched as if it had arrived alone; (9) several callers of send_and_wait_for_response_processed queued behind no_response_waiting: gated commands on the port followed by the callers still waiting are exactly the callers in call order at every point of every run. Tied by correspondence to the real PKONEHardwarePlatform/PKONESerialCommunicator, the real OPPSerialCommunicator._identify_connection fed through a real asyncio.StreamReader by a simulated card chain under generated chunkings, the real OppHardwarePlatform init handlers on merged/corrupted/truncated replies, the real FastNetNeuronCommunicator and the real writer task.",
-  "note": "Trusted: Lean kernel + {propext, Classical.choice, Quot.sound}; the hand-written models in Model/Framing.lean (validated only by differential runs); the generator that extracts CRC8_LOOKUP; asyncio Queue/Event semantics for the writer. Known findings: the FAST writer does not pause for confirmations and never retries a lost response (D7); a frame that is not UTF-8 makes the FAST reader raise (deliberate re-raise outside the connect phase). Not modelled: FAST NN: (I/O board discovery) responses and the firmware-version syntax of ID:, SA: snapshots whose announced byte count is consistent but which cover fewer switches than are configured (needs two corruptions; KeyError after a partial update), ignore_decode_errors=True (connect phase); OPP initial input reads (read_gen2_inp_resp_initial / matrix) are driven on the real code and judged by the oracle only (no Lean model of their own), the OPP serial-number read (_read_id) and inventory replies carry no CRC and are only generated intact; PKONE connect phase (PCN/PCB regex parsing, reset) is not driven; the platforms are built by their own __init__ on a stub machine (recording switch controller), not booted inside a MachineController (the repo's PKONE test scaffolding does not boot on this Python).",
+  "text": "Proof on byte-level Lean models of the three incremental serial decoders and the FAST command writer: (1) for every byte-at-a-time decoder feed(a++b) = feed(feed a) b, hence frames and carried buffer of the FAST ('\\r') and PKONE ('E') decoders are independent of how the bytes were split into reads, and after any noise one delimiter restores exact in-order delivery; (2) a transcription of OPP's _parse_msg (part_msg, _lost_synch, the strlen>2 threshold, 7/11-byte frames, EOM) always terminates and, on every chunking, emits exactly the frames of a byte-at-a-time automaton on the concatenated bytes, its carried state being equal after normalisation (the raw carried pair does depend on the chunking); (3) the CRC-8 table regenerated from opp_rs232_intf.py on every run is a permutation (kernel-checked per entry) and linear (kernel-checked) and therefore every single-byte error and every burst error confined to 8 consecutive bits, in data or CRC byte of a frame, is detected; a frame with a wrong CRC changes no card state and produces no switch event; after any frame the reported switch states mirror old_state and a valid frame sets it to its payload; a FAST switch report sets exactly that switch, and after any list of SA: snapshots and -L:/ /L: events the state of every configured switch is what the last report mentioning it said (event: the reported logical state; snapshot: invert xor bit) while hw_switch_data is the last snapshot; (4) after any garbage plus 11 idle bytes the OPP automaton decodes every following well-formed frame; every PKONE frame is handled without raising (non-UTF-8 frames are skipped) and well-formed frames after noise are delivered; (5) the writer keeps queue order at every point of every run. Flow control is a known finding (the writer never pauses; a lost response is never retried): proved only for disciplined senders resp. for responses that arrive, with witnesses. The models are tied to the real communicators by a correspondence run (incl. the real FAST platform booted on the repo's mock serial with the real switch controller for mixed snapshot/event sequences; generated streams, chunkings down to single bytes, corruptions, malformed frames, writer schedules) on every check. Session 3 (Model/Framing2.lean) adds the protocol code behind the frame decoders: (6) PKONE _parse_msg with its in-flight counter and send_ready, process_received_message, receive_switch (PSW) and receive_all_switches (PSA) as one byte-at-a-time automaton over the whole state: state and observations are independent of the chunking; a frame changes the reported switch table only if it is exactly PSW+board digit+two switch digits+0/1 (truncated, over-long, non-numeric payloads report nothing) and hw_switch_data only if it is a well-formed PSA; after any frame sequence the state last told for a switch is that of the last well-formed PSW for it; the counter goes down by the number of delimiters, never below zero, send_ready is never cleared by the reader; (7) OPP initialisation: readuntil(EOM, 7n) returns the complete reply of n cards whatever its bytes are (the old minimum 6 cut a reply whose CRC byte is 0xff: witness), the loop of get_gen2_cfg_resp / vers_resp over the merged responses of any number of chained cards accepts exactly the well-formed responses in chain order, and on a bad CRC exactly the cards before it (nothing from the damaged response or after it); (8) FAST configuration-phase dispatch (ID: CH: SL: DL: SA: at boot, !B: XX:) as a delimiter automaton: chunking-independent, and after any garbage and one CR every following response is dispatched as if it had arrived alone; (9) several callers of send_and_wait_for_response_processed queued behind no_response_waiting: gated commands on the port followed by the callers still waiting are exactly the callers in call order at every point of every run. Tied by correspondence to the real PKONEHardwarePlatform/PKONESerialCommunicator, the real OPPSerialCommunicator._identify_connection fed through a real asyncio.StreamReader by a simulated card chain under generated chunkings, the real OppHardwarePlatform init handlers on merged/corrupted/truncated replies, the real FastNetNeuronCommunicator and the real writer task. Second extension (Model/Framing3.lean): (10) OPP input reports on the platform level, several chains each with its own _parse_msg state, cards, bad-CRC counter and registration: after ANY list of delivered frames (good, wrong CRC, unknown card) the old_state of every card is the payload of the last frame with a correct CRC for it, in the initial reads of _identify_connection (read_gen2_inp_resp_initial / read_matrix_inp_resp_initial) as well as in the steady state (read_gen2_inp_resp / read_matrix_inp_resp); get_hw_switch_states makes MPF's switch states mirror the cards and every later frame list keeps them mirrored (MPF's states = last report per board); a frame with a wrong CRC changes no card and reports nothing in either phase; the chunked steady-state reader gives the same cards, events and bad-CRC count for every way of splitting the bytes; a read on one chain leaves every other chain untouched; _read_id accepts exactly the well-formed 8-byte answers; witnesses for two observations outside the property (a bad-CRC initial read is counted as a card read: a matrix card then keeps its [0, 0] placeholder and get_hw_switch_states raises TypeError; an init reply that ends in lost_synch() before the connection is registered raises KeyError). (11) FAST NN: node discovery: any response either leaves the board table alone or appends one board for a node inside the configured loop, not registered before, whose predecessors are all known, with the running totals as first switch / driver number; ID: with the release-number syntax of the firmware version; chunking-independent. (12) PKONE connect phase: the PCN / PCB reply grammar as structural scanners; an extension board is registered only for a reply of the exact shape PCB d X F digits H digits tail. Tied by correspondence to the real OppHardwarePlatform (own __init__, stub machine) with one or two chains booted through the real _identify_connection (incl. _read_id) on a real StreamReader, the real initialize() and get_hw_switch_states(), then interleaved chunked polls; the real FastNetNeuronCommunicator with a configured I/O loop; the real PKONESerialCommunicator._identify_connection against a simulated controller on a virtual clock.",
+  "note": "Trusted: Lean kernel + {propext, Classical.choice, Quot.sound}; the hand-written models in Model/Framing.lean (validated only by differential runs); the generator that extracts CRC8_LOOKUP; asyncio Queue/Event semantics for the writer. Known findings: the FAST writer does not pause for confirmations and never retries a lost response (D7); a frame that is not UTF-8 makes the FAST reader raise (deliberate re-raise outside the connect phase). Not modelled: SA: snapshots whose announced byte count is consistent but which cover fewer switches than are configured (needs two corruptions; KeyError after a partial update), ignore_decode_errors=True (connect phase); an OPP inventory reply carries no CRC: a damaged one is believed (counted, modelled); OPP wing-to-mask decoding (_parse_gen2_board) is not modelled (the cards MPF created are told to the model); FAST version strings are modelled for release numbers N(.N)* with an optional v only (the generated alphabet cannot form pre/post/dev markers); PKONE reset / PSA replies of the connect phase are driven and compared on the outcome only; the platforms are built by their own __init__ on a stub machine (recording switch controller), not booted inside a MachineController (the repo's PKONE test scaffolding does not boot on this Python).",
   "technique": "Lean 4 theorems (induction over byte lists, simulation between loop transcription and automaton, decide +kernel over the regenerated CRC table) + differential correspondence with the real parsers and writer task",
   "translated": True,
  }
@@ -48,7 +49,7 @@ RULE = ("cases: (a) FAST streams of 3-12 frames (-L:/ /L: switch reports, SA: re
         "process_received_message intact, with one damaged byte per frame, a changed command byte, a deletion of 1-7 bytes, or "
         "merged with the next reply; (i) FAST config-phase streams (ID: CH: SL: DL: boot SA: !B: XX:, 24 malformed shapes "
         "incl. two replies run together) with 0-2 corruptions, 5 chunkings, frame-by-frame re-decode as oracle; (j) 3-12 "
-        "calls / send_and_forget / responses on the real communicator + writer task")
+        "calls / send_and_forget / responses on the real communicator + writer task; second extension: (k) OPP platforms with 1-2 chains (40% of first chains without configured serial: _read_id; its reply damaged in 12%), 1-3 cards each, the reply to the initial input read intact / one byte flipped / a byte deleted / a byte inserted, then steady polls per chain (valid, one frame with a payload flip, garbage run, header damage, unknown cards) interleaved between the chains, all under whole / single-byte / random chunkings of every reply and stream; (l) inventory / GET_GEN2_CFG / GET_VERS replies intact or with a flip / deletion / insertion, handed over while the connection is not registered; (m) FAST NN: streams for loops of 1/2/4 boards: in order, shuffled, with a node beyond the loop, node-not-found, NN:F, repeats, 14 malformed shapes, ID: with 11 version shapes, SL:/DL: beyond the tables, 0-2 corruptions, 5 chunkings; (n) PKONE connect dialogues: PCN answered / late / malformed, PRS with noise frames or PXX, 8 PCB replies (none / extension / lightshow / 12 malformed or misplaced shapes, firmware numbers incl. one digit and 0.x), PSA replies behind noise frames, 30% with one damaged byte, 3 chunkings")
 TRUSTED = [
     "Model/Framing.lean is hand-written; tied to mpf/platforms/fast/communicators/{base,net_neuron}.py, "
     "mpf/platforms/opp/{opp_serial_communicator,opp}.py, mpf/platforms/pkone/pkone_serial_communicator.py by "
@@ -62,6 +63,11 @@ TRUSTED = [
     "modelled, not verified: asyncio.StreamReader.readexactly/feed_data (byte stream abstraction under readuntil), "
     "asyncio.Event wake-up order (FIFO of waiters), Python int() on ASCII digit strings, str.split(',') / str.split()",
     "the simulated OPP card chain (harness/common/serial_c14.py chain_reply) stands for the hardware",
+    "Model/Framing3.lean is hand-written; tied to mpf/platforms/opp/{opp,opp_serial_communicator}.py (input handlers of both phases, "
+    "_read_id, get_hw_switch_states, initialize), mpf/platforms/fast/communicators/{base,net_neuron}.py (_process_nn, _process_id), "
+    "mpf/platforms/pkone/pkone_serial_communicator.py (_identify_connection, query_pkone_boards) by correspondence on every run",
+    "modelled, not verified: packaging.version.parse on strings over digits, dots and a leading v; re.match / re.fullmatch on the two PKONE "
+    "patterns (transcribed as scanners); asyncio.StreamReader.readexactly; the simulated PKONE controller and OPP chain stand for the hardware",
 ]
 ASSUMPTIONS = [
     "FAST/PKONE corruption bytes never form valid multi-byte UTF-8, whitespace, sign, underscore or 0x prefixes "
@@ -74,6 +80,9 @@ ASSUMPTIONS = [
     "OPP: cards have been initialised (old_state is an int); one chain",
     "PKONE/FAST-config corruption bytes never form valid multi-byte UTF-8, blanks, signs, underscores (Python's int() "
     "accepts those; the models' digit parsers are strict)",
+    "OPP platform level: card addresses are unique within a chain; MPF's real boot order is followed (connect incl. initial reads -> "
+    "initialize() -> get_hw_switch_states() -> read loop): when get_hw_switch_states raises, MPF has stopped and no steady-state frame is fed",
+    "FAST NN:/ID: corruption bytes never form blanks, signs, underscores, 0x prefixes or the letters of a/b/c/rc/post/dev/v markers",
     "CRC-8 promises detection of one damaged byte (or an 8-bit burst) per frame: the 'corrupt frame accepted' oracle of "
     "the OPP init replies damages at most one byte per frame; deletions are judged by the correspondence only",
 ]
@@ -1120,7 +1129,34 @@ def run(ctx):
             S2.fcfg_case(ctx, ctx.rng("fcfg", i), model)
         for i in range(ctx.n(300, 3000)):
             S2.gate_case(ctx, ctx.rng("gate", i), model)
-        rig = FastRig()
+        # ---- second extension job (harness/common/serial3_c14.py, Model/Framing3.lean)
+        S3.plat_case(ctx, ctx.rng("w-readid"), model, case={      # the serial-number reply split over several reads
+            "kind": "opp-plat", "chains": [{"serial": None, "id": 74565, "cards": [
+                {"addr": 0x20, "wings": [2, 4, 0x0a, 2], "vers": [2, 1, 0, 0], "inp": 0xfffffffe, "mtx": 0xffffffffffffff7f}]}],
+            "init_damage": {}, "mode": "valid", "steady": ["ff"], "meta": [[["ff", ["eom"]]]]})
+        S3.fnn_case(ctx, ctx.rng("w-nn"), model, ncorr=0, nboards=2, frames=[
+            ("NN:00,FP-I/O-3208-3   ,01.10,08,20,00,00,00,00,00,00", "nn"),
+            ("NN:05,FP-I/O-3208-3   ,01.10,08,20,00,00,00,00,00,00", "malformed"),
+            ("NN:01,FP-I/O-0804-3   ,01.10,04,08,00,00,00,00,00,00", "nn")])
+        S3.fnn_case(ctx, ctx.rng("w-nn2"), model, ncorr=0, nboards=2, frames=[
+            ("NN:01,FP-I/O-0804-3   ,01.10,04,08,00,00,00,00,00,00", "malformed"),
+            ("NN:00,FP-I/O-3208-3   ,01.10,08,20,00,00,00,00,00,00", "nn"),
+            ("NN:01,FP-I/O-0804-3   ,01.10,04,08,00,00,00,00,00,00", "nn")])
+        for i in range(ctx.n(130, 2000)):
+            S3.plat_case(ctx, ctx.rng("oppplat", i), model)
+        for i in range(ctx.n(300, 3000)):
+            S3.opp_msgu_case(ctx, ctx.rng("oppmsgu", i), model)
+        for i in range(ctx.n(300, 4000)):
+            S3.fnn_case(ctx, ctx.rng("fnn", i), model)
+        for i in range(ctx.n(200, 2500)):
+            S3.pkc_case(ctx, ctx.rng("pkc", i), model)
+        try:
+            rig = FastRig()
+        except Exception:
+            if not getattr(ctx, "failures", None):
+                raise
+            ctx.count("fast_rig_did_not_boot_after_failures")      # the failures found above are the report
+            return
         try:
             z = "00" * 14
             sa_case(ctx, ctx.rng("w-sa"), model, rig, items=[      # same snapshot twice around contradicting events
@@ -1140,7 +1176,17 @@ def run(ctx):
 def replay(ctx, rep):
     case = rep["case"]
     sig = rep.get("signature", "")
-    if case["kind"] == "pk2":
+    if case["kind"] == "opp-plat":
+        S3.plat_replay(ctx, case)
+    elif case["kind"] == "fast-nn":
+        S3.fnn_replay(ctx, case)
+    elif case["kind"] == "pkone-connect":
+        S3.pkc_replay(ctx, case)
+    elif case["kind"] == "opp-msgu":
+        obs, p, boards = S2.opp_msg_run(case["cards"], [bytes.fromhex(m) for m in case["msgs"]], registered=False)
+        if any("crash:" in o for o in obs):
+            ctx.fail("opp-init-message-crash", case, {"observations": obs})
+    elif case["kind"] == "pk2":
         S2.pk2_replay(ctx, case)
     elif case["kind"] in ("opp-init", "opp-msg"):
         S2.opp_init_replay(ctx, case)
